@@ -361,6 +361,9 @@ func genAdd(r *Rng, now int64, malformed bool, used []string) c14Op {
 		op.CurStart = p64(st)
 		op.Started = true
 		op.Cur = uint64(r.Range(1, 40))
+		if r.Chance(1, 3) { // counting has started but the identifier still sits in epoch 0 (Validate accepts it): its next
+			op.Cur = 0 // advance 0 -> 1 is an ordinary one — AfterEpochEnd(id, 0), then BeforeEpochStart(id, 1)
+		}
 		op.Height = int64(r.Intn(50))
 	}
 	if malformed {
@@ -635,6 +638,18 @@ func TestC14(t *testing.T) {
 		{Op: "block", T: t0}, {Op: "block", T: t0 + hour}, {Op: "block", T: t0 + day}, {Op: "init", Via: "migrate"},
 		{Op: "block", T: t0 + day + hour}, {Op: "block", T: t0 + 2*day}, {Op: "block", T: t0 + 9*day},
 	}})
+	// definitions whose counting has started at epoch 0 (added directly and through a genesis state): the advance 0 -> 1
+	// must deliver AfterEpochEnd(id, 0) to every receiver behind the MultiEpochHooks, then BeforeEpochStart(id, 1)
+	run(c14Input{Mode: "direct", Ops: []c14Op{
+		{Op: "add", T: t0, H: 1, Ident: "day", Dur: day, Started: true, Cur: 0, Start: p64(t0 - hour), CurStart: p64(t0 - hour), Height: 0},
+		{Op: "init", Via: "module", T: t0, H: 1, Gen: []c14Op{{Op: "add", Ident: "hour", Dur: hour, Started: true, Cur: 0, Start: p64(t0), CurStart: p64(t0)}}},
+		{Op: "block", T: t0, H: 2}, {Op: "block", T: t0 + hour - 1, H: 3}, {Op: "block", T: t0 + hour, H: 4},
+		{Op: "block", T: t0 + 2*hour, H: 5}, {Op: "block", T: t0 + day - hour, H: 6}, {Op: "block", T: t0 + 2*day, H: 7},
+	}})
+	run(c14Input{Mode: "abci", Genesis: []c14Op{
+		{Op: "add", Ident: "week", Dur: hour, Started: true, Cur: 0, Start: p64(t0 - day), CurStart: p64(t0 - day)},
+		{Op: "add", Ident: "day", Dur: day, Start: p64(t0)},
+	}, Ops: []c14Op{{Op: "block", T: t0}, {Op: "block", T: t0 + hour}, {Op: "block", T: t0 + day}}})
 	rng := NewRng(cfg.Seed)
 	for i := 0; i < cfg.N; i++ {
 		run(genC14Case(rng.Fork()))
